@@ -284,6 +284,15 @@ fn outside_shared(src: &str) -> Option<&'static str> {
     if src.contains(":=") || src.contains("->") || src.contains('@') || src.contains('`') || src.contains('$') || src.contains('?') || src.contains('!') && !src.contains("!=") {
         return Some("token exists on one side only");
     }
+    {
+        // A carriage return that is not part of a CR LF pair: a line end for Python, plain white space in the Starlark
+        // specification, "invalid input" for this lexer (which recognises `\n` and `\r\n` only) - the two language
+        // definitions disagree, so such text is not in the shared grammar.
+        let b = src.as_bytes();
+        if (0..b.len()).any(|i| b[i] == b'\r' && b.get(i + 1) != Some(&b'\n')) {
+            return Some("lone carriage return: line end in Python, white space in the Starlark specification");
+        }
+    }
     if src.contains("...") {
         return Some("ellipsis");
     }
